@@ -86,8 +86,13 @@ func (b *basicBus) withNode(typ reflect.Type, cb func(*node), async func(*node))
 		b.nodes[typ] = n
 	}
 
-	n.lk.Lock()
+	// Never wait for n.lk while holding b.lk: an Emit holds n.lk for as long as
+	// a subscriber is slow, and every other bus operation needs b.lk. The
+	// pending count keeps tryDropNode from dropping the node before it is locked.
+	n.pending.Add(1)
 	b.lk.Unlock()
+	n.lk.Lock()
+	n.pending.Add(-1)
 
 	cb(n)
 
@@ -109,7 +114,13 @@ func (b *basicBus) tryDropNode(typ reflect.Type) {
 		return
 	}
 
-	n.lk.Lock()
+	if n.pending.Load() > 0 || !n.lk.TryLock() {
+		// somebody is about to lock the node or holds it (an Emit in progress,
+		// possibly stalled on a slow subscriber): in use. Do not wait for n.lk
+		// while holding b.lk.
+		b.lk.Unlock()
+		return
+	}
 	if n.nEmitters.Load() > 0 || len(n.sinks) > 0 {
 		n.lk.Unlock()
 		b.lk.Unlock()
@@ -416,6 +427,10 @@ type node struct {
 
 	// emitter ref count
 	nEmitters atomic.Int32
+
+	// callers of withNode that have looked the node up (under basicBus.lk) and
+	// have not locked it yet
+	pending atomic.Int32
 
 	keepLast bool
 	last     any
